@@ -1,6 +1,6 @@
 (* Props/C09.v -- statements claimed for C09 (connectivity queries vs brute-force counting). *)
-From Coq Require Import List Arith ZArith.
-From LaPyV Require Import Base.ListAux Model.TetMesh Model.TriaAdj Proofs.TriaAdjP.
+From Coq Require Import List Arith ZArith Permutation.
+From LaPyV Require Import Base.ListAux Model.TetMesh Model.TriaAdj Proofs.TriaAdjP Proofs.LoopsP.
 Import ListNotations.
 
 (* the symmetric adjacency value of (i,j) is the number of triangles containing both *)
@@ -55,3 +55,33 @@ Theorem C09_edges_lists_inner_edges_with_their_triangles : forall ts keys tids, 
             (In (j, i) (hedges ts) -> exists t, nth_error ts b = Some t /\ In (j, i) (hedges1 t))) (combine keys tids).
 Proof. exact edges_inner_spec. Qed.
 Print Assumptions C09_edges_lists_inner_edges_with_their_triangles.
+
+(* ---- boundary_loops.  The table the walk runs on is the set of boundary half-edges ... *)
+Theorem C09_boundary_table_is_the_set_of_boundary_half_edges : forall ts i j, Forall distinct_tri ts -> i <> j ->
+  (In (i, j) (boundary_table ts) <-> hedge_count ts i j >= 1 /\ tri_count ts i j <> 2).
+Proof. exact boundary_table_in. Qed.
+Print Assumptions C09_boundary_table_is_the_set_of_boundary_half_edges.
+
+(* ... and on every manifold, open, oriented mesh whose boundary half-edges form a permutation of the boundary vertices ([FG]:
+   each vertex of the table has exactly one outgoing and one incoming boundary half-edge) the walk terminates within its fuel and
+   returns simple cycles (no vertex repeated) whose half-edges ([loop_edges]: each listed vertex is entered from the next one,
+   the first from the last) are, taken together, exactly the boundary half-edges, each used once *)
+Theorem C09_boundary_loops_are_simple_cycles_using_every_boundary_half_edge_once : forall ts,
+  is_manifold ts = true -> is_closed ts = false -> is_oriented ts = true -> FG (boundary_table ts) ->
+  exists loops, boundary_loops ts = Ok loops /\ Forall (fun l => l <> [] /\ NoDup l) loops /\
+                Permutation (flat_map loop_edges loops) (boundary_table ts).
+Proof. exact boundary_loops_ok. Qed.
+Print Assumptions C09_boundary_loops_are_simple_cycles_using_every_boundary_half_edge_once.
+
+Theorem C09_boundary_loops_none_for_closed_meshes : forall ts, is_manifold ts = true -> is_closed ts = true -> boundary_loops ts = Ok [].
+Proof. exact boundary_loops_closed. Qed.
+Print Assumptions C09_boundary_loops_none_for_closed_meshes.
+
+Theorem C09_boundary_loops_rejects_nonmanifold_or_unoriented : forall ts,
+  is_manifold ts = false \/ (is_closed ts = false /\ is_oriented ts = false) -> boundary_loops ts = Err ValueError.
+Proof. exact boundary_loops_rejects. Qed.
+Print Assumptions C09_boundary_loops_rejects_nonmanifold_or_unoriented.
+
+Example C09_boundary_loops_hypotheses_are_satisfiable :
+  is_manifold c09_square = true /\ is_closed c09_square = false /\ is_oriented c09_square = true /\ FG (boundary_table c09_square).
+Proof. exact loops_hypotheses_satisfiable. Qed.
